@@ -238,6 +238,103 @@ def drain {α σ} (next : σ → Outcome α σ) : Nat → σ → Option (List α
     | .done => some []
     | .item x s' => (drain next fuel s').map (x :: ·)
 
+/-! ### `a..` observed step by step, up to and past `MAX_VAL`
+
+What a consumer of an iteration sees at each step: an item, a panic, or the END of the iteration (`None`
+from the source while the consumer still wanted items).  The loops below are the ones the macros emit
+(konst_kernel/src/iter/combinator_methods.rs `take`/`zip`, iter_eval_macro.rs `nth`/`next`/`find`) around
+`iter.next()`, generic in the source iterator `next : σ → Outcome α σ`; the harness instantiates them with
+`RangeFromIter::next`, which has no `None` branch at all: at `MAX_VAL` it panics (`debug_assert!`). -/
+
+/-- one observation -/
+inductive Tok (α : Type) where
+  | v (x : α)
+  | panic
+  | end_
+  | runaway      -- the harness's own guard: the closure of `find` was called more often than its limit
+deriving Repr, DecidableEq
+
+/-- `vals` yielded, then a panic (`true`) or nothing more asked (`false`) -/
+def Tok.ofRun {α} (r : List α × Bool) : List (Tok α) := r.1.map .v ++ (if r.2 then [.panic] else [])
+
+/-- `k` by-value calls of `next` (`it.copy().next()`), stopping at the first panic or `None` -/
+def pulls {α σ} (next : σ → Outcome α σ) : σ → Nat → List (Tok α)
+  | _, 0 => []
+  | s, k + 1 =>
+    match next s with
+    | .panic => [.panic]
+    | .done => [.end_]
+    | .item x s' => .v x :: pulls next s' k
+
+/-- `for_each!{x in it => { push(x); if pushed == k { break } }}` for `k ≥ 1`; `rem = k - pushed` at the loop
+    head.  Leaving the loop through `None` with fewer than `k` items is the observation `end`. -/
+def forEachBreak {α σ} (next : σ → Outcome α σ) : σ → Nat → List (Tok α)
+  | _, 0 => []
+  | s, rem + 1 =>
+    match next s with
+    | .panic => [.panic]
+    | .done => [.end_]
+    | .item x s' => .v x :: (if rem = 0 then [] else forEachBreak next s' rem)
+
+/-- `it, take(k)`: `loop { let item = next() else break; if rem == 0 { break } else { rem -= 1 }; body }` —
+    the test comes AFTER the pull, so `k + 1` items are pulled.  `None` with `rem > 0` (fewer than `k` items
+    reached the body) is the observation `end`. -/
+def takeLoop {α σ} (next : σ → Outcome α σ) : σ → Nat → List (Tok α)
+  | s, rem =>
+    match next s with
+    | .panic => [.panic]
+    | .done => if rem = 0 then [] else [.end_]
+    | .item x s' =>
+      match rem with
+      | 0 => []
+      | rem + 1 => .v x :: takeLoop next s' rem
+
+/-- `it, zip(other)` where `other` still has `m` items:
+    `loop { let item = next() else break; let item = if let Some(e) = other.next() { (item, e) } else { break }; body }` -/
+def zipLoop {α σ} (next : σ → Outcome α σ) : σ → Nat → List (Tok α)
+  | s, m =>
+    match next s with
+    | .panic => [.panic]
+    | .done => if m = 0 then [] else [.end_]
+    | .item x s' =>
+      match m with
+      | 0 => []
+      | m + 1 => .v x :: zipLoop next s' m
+
+/-- `outer, zip(it)` where `outer` still has `m` items: `outer.next()` first (`None` ⇒ break), then `it.next()`
+    (`None` ⇒ break: fewer than `m` items, the observation `end`) -/
+def zipInLoop {α σ} (next : σ → Outcome α σ) : σ → Nat → List (Tok α)
+  | _, 0 => []
+  | s, m + 1 =>
+    match next s with
+    | .panic => [.panic]
+    | .done => [.end_]
+    | .item x s' => .v x :: zipInLoop next s' m
+
+/-- `eval!(it, nth(n))`: `loop { let item = next() else break; if nth == 0 { ret = Some(item); break } else { nth -= 1 } }`;
+    `eval!(it, next())` is the same code without the counter (`nthLoop · · 0`) -/
+def nthLoop {α σ} (next : σ → Outcome α σ) : σ → Nat → Tok α
+  | s, n =>
+    match next s with
+    | .panic => .panic
+    | .done => .end_
+    | .item x s' =>
+      match n with
+      | 0 => .v x
+      | n + 1 => nthLoop next s' n
+
+/-- `eval!(it, find(p))`: `loop { let item = next() else break; if p(&item) { ret = Some(item); break } }`;
+    `fuel` = how many more calls of `p` the harness's guard allows -/
+def findLoop {α σ} (next : σ → Outcome α σ) (p : α → Bool) : σ → Nat → Tok α
+  | s, fuel =>
+    match next s with
+    | .panic => .panic
+    | .done => .end_
+    | .item x s' =>
+      match fuel with
+      | 0 => .runaway
+      | fuel + 1 => if p x then .v x else findLoop next p s' fuel
+
 end Konst.Range
 
 namespace Konst.Range
